@@ -43,7 +43,9 @@ RULE = ("scenarios = sharding function x store pre-state (empty, shard directori
         "(EIO; +ENOSPC, EACCES on write/rename/mkdir/create; +EEXIST on create and mkdir; +ENOENT on rename); after each run a new "
         "process lists the store, reads every key and does a further put/get; plus Put under a context that reports cancellation "
         "after PutStream's own check (fault-free; must publish nothing or everything) and two Store values on ONE directory with "
-        "interleaved streams / a Put inside an open stream / the same key (no mixed block, nobody fails); "
+        "interleaved streams / a Put inside an open stream / the same key (no mixed block, nobody fails); the same fault "
+        "enumeration and concurrent readers with <base>/.temp symlinked into ANOTHER file system (rename refused with EXDEV: "
+        "the key stays absent; a copy into the key path would show as a trace mismatch and as `partial` under kill); "
         "distinct = distinct (scenario, fault)")
 
 
@@ -66,6 +68,30 @@ def extra(ctx):
     res = []
     rc, out = core.sh("strace -V", timeout=20)
     res.append({"name": "runtime: strace with fault injection available", "ok": rc == 0, "info": out.strip().split("\n")[0]})
+    # the "staging on another file system" scenarios need a second file system: say explicitly whether they ran
+    second = ""
+    try:
+        here = os.stat(core.BUILD).st_dev
+        for cand in ("/dev/shm", "/run/shm", "/tmp"):
+            if os.path.isdir(cand) and os.stat(cand).st_dev != here and os.access(cand, os.W_OK):
+                second = cand
+                break
+    except OSError:
+        pass
+    nx = total = 0
+    cases = os.path.join(ctx.rundir, "cases.txt")
+    if os.path.exists(cases):
+        for l in open(cases, errors="replace"):
+            total += 1
+            if l.split("\t")[1:2] and l.split("\t")[1].endswith(",x"):
+                nx += 1
+    if second:
+        res.append({"name": "runtime: staging-on-another-file-system scenarios ran (%d records; .temp symlinked into %s)" % (nx, second),
+                    "ok": nx > 0 or total < 50,   # (a replay of a few records need not contain one)
+                    "info": "second file system: %s" % second})
+    else:
+        res.append({"name": "runtime: staging-on-another-file-system scenarios SKIPPED: no second writable file system (/dev/shm, /run/shm, /tmp)",
+                    "ok": True, "info": "SKIPPED: the EXDEV path of move() was not exercised in this run"})
     with core.Lock():
         ok, log = core.build_harness(["c18"], race=True)
     if not ok:
